@@ -27,7 +27,7 @@ pub enum PollRet { Dev(Vec<u8>), TimedOut, Interrupted } // 0 keyboard, 1 tablet
 #[derive(Clone, Debug, PartialEq, Eq, Hash)]
 pub enum Call {
   Register,
-  Poll { timeout_us: Option<u64>, at_us: u64, ret: PollRet, after_us: u64, unread_k: bool, unread_t: bool, label: &'static str },
+  Poll { timeout_us: Option<u64>, at_us: u64, ret: PollRet, after_us: u64, unread_k: bool, unread_t: bool, label: &'static str, unread_events: Vec<Event> },
   NextK { at_us: u64, ev: Option<Event>, end: bool },
   NextT { at_us: u64, ev: Option<bool>, end: bool },
   Send { at_us: u64, evs: Vec<Event> },
@@ -154,6 +154,7 @@ impl<'a> ScriptedDriver for Env<'a> {
     // data the loop was already told about (edge reported) and has not read
     let unread_k = !self.kq.is_empty() && !self.k_edge;
     let unread_t = !self.tq.is_empty() && !self.t_edge;
+    let unread_events: Vec<Event> = if unread_k { self.kq.iter().filter_map(|it| if let Item::K(e) = it { Some(e.clone()) } else { None }).collect() } else { vec![] };
     let ret: PollRet;
     let label: &'static str;
     if self.k_edge || self.t_edge {
@@ -174,7 +175,7 @@ impl<'a> ScriptedDriver for Env<'a> {
       if self.devs_left > 0 && self.cfg.empty_wakeups && !self.end_delivered { menu.push("empty-wakeup-k"); if self.cfg.max_tablet > 0 || self.cfg.tablet_end { menu.push("empty-wakeup-t"); } }
       if n_arr + menu.len() == 0 {
         // nothing can happen any more (device gone and read): a faithful poll would block for ever
-        self.horizon = true; self.log.push(Call::Poll { timeout_us: t_us, at_us: at, ret: PollRet::Interrupted, after_us: at, unread_k, unread_t, label: "blocked" });
+        self.horizon = true; self.log.push(Call::Poll { timeout_us: t_us, at_us: at, ret: PollRet::Interrupted, after_us: at, unread_k, unread_t, label: "blocked", unread_events: vec![] });
         return Err("verification horizon: poll would block for ever".into());
       }
       let c = self.choose(n_arr + menu.len());
@@ -223,7 +224,7 @@ impl<'a> ScriptedDriver for Env<'a> {
       }
     }
     let v = to_vpoll(&ret);
-    self.log.push(Call::Poll { timeout_us: t_us, at_us: at, ret, after_us: clock_now_us(), unread_k, unread_t, label });
+    self.log.push(Call::Poll { timeout_us: t_us, at_us: at, ret, after_us: clock_now_us(), unread_k, unread_t, label, unread_events });
     Ok(v)
   }
 
@@ -385,18 +386,36 @@ pub fn judge(layout: &Layout, x: &Exec) -> (Option<Discrepancy>, Stats) {
           return (Some(x), st);
         }
       }
-      Call::Poll { timeout_us, at_us, ret, after_us, unread_k, unread_t, label } => {
+      Call::Poll { timeout_us, at_us, ret, after_us, unread_k, unread_t, label, unread_events } => {
         if st.ended { return (d("C10", "keeps-waiting-after-end-of-device", "poll called after the device reported it is gone".to_string(), i), st); }
         if reads_this_wakeup > 1 { st.multi_event_wakeups += 1; }
         reads_this_wakeup = 0;
         // everything owed must have been written before the loop goes back to waiting
-        match owed.front() {
-          Some(Expect::Step(exp)) => return (d(step_prop(seen_tablet), if seen_tablet { "not-a-fresh-start-after-tablet-mode" } else { "waits-with-mapper-output-unwritten" }, format!("poll called at {}us while the output {} of an event already read is unwritten", at_us, ev_str(exp)), i), st),
-          Some(Expect::Reset) => return (d("C12", "held-keys-not-released-at-once", format!("{:?} held at the tablet-mode switch and not released before the loop went back to waiting", held), i), st),
-          _ => {}
+        let mut dd: Option<Discrepancy> = match owed.front() {
+          Some(Expect::Step(exp)) => d(step_prop(seen_tablet), if seen_tablet { "not-a-fresh-start-after-tablet-mode" } else { "waits-with-mapper-output-unwritten" }, format!("poll called at {}us while the output {} of an event already read is unwritten", at_us, ev_str(exp)), i),
+          Some(Expect::Reset) => d("C12", "held-keys-not-released-at-once", format!("{:?} held at the tablet-mode switch and not released before the loop went back to waiting", held), i),
+          _ => None
+        };
+        if dd.is_none() && *unread_k { dd = d("C10", "waits-while-notified-events-unread", format!("poll called at {}us while keyboard events already signalled are unread", at_us), i); }
+        if dd.is_none() && *unread_t { dd = d("C12", "waits-while-tablet-events-unread", format!("poll called at {}us while tablet events already signalled are unread", at_us), i); }
+        // The device-level halves of C01, C02 and C05: whenever the loop goes back to waiting, what is held on the virtual
+        // keyboard (fold of everything written) must stand in the stated relation to what is held PHYSICALLY - by all events the
+        // loop has read or has been notified about.  Judged only while no tablet event has been read (tablet mode is C12's).
+        if !seen_tablet && !tablet {
+          let mut phys_true = phys.clone();
+          for e in unread_events.iter() { match e { Pressed(k) => { if !phys_true.contains(k) { phys_true.push(*k); } } Released(k) => phys_true.retain(|x| x != k) } }
+          let mentioned = |k: &KeyCode| layout.mappings.iter().any(|m| m.from.contains(k) || m.to.contains(k) || m.absorbing.contains(k) || matches!(&m.repeat, crate::keys::Repeat::Special { keys, .. } if keys.contains(k)));
+          let norepeat_layout = layout.mappings.iter().any(|m| m.repeat != crate::keys::Repeat::Normal);
+          let mut state: Vec<(&'static str, &'static str, String)> = vec![];
+          if phys_true.is_empty() && !held.is_empty() { state.push(("C01", "device-level: keys-held-with-nothing-held-physically", format!("the loop goes back to waiting at {}us with {:?} held on the virtual keyboard although every physical key has been released", at_us, held))); }
+          if let Some(x) = held.iter().find(|x| !phys_true.contains(x) && !layout.mappings.iter().any(|m| m.to.contains(x) && m.from.iter().all(|f| phys_true.contains(f)))) { state.push(("C02", "device-level: unjustified-key-held-on-device", format!("the loop goes back to waiting at {}us with {:?} held on the virtual keyboard; physically held: {:?}; no mapping with all its trigger keys held outputs it", at_us, x, phys_true))); }
+          if let Some(f) = held.iter().find(|f| !mentioned(f) && !phys_true.contains(f)).or(phys_true.iter().find(|f| !mentioned(f) && !held.contains(f) && (!norepeat_layout || crate::corpus::is_mod(f)))) { state.push(("C05", "device-level: uninvolved-key-differs-from-its-physical-state", format!("the loop goes back to waiting at {}us with the uninvolved key {:?} {} on the virtual keyboard while it is {} physically", at_us, f, if held.contains(f) { "down" } else { "up" }, if phys_true.contains(f) { "down" } else { "up" }))); }
+          match dd.as_mut() {
+            Some(x) => { for (p, _, _) in &state { if x.prop != *p && !x.also.contains(p) { x.also.push(p); } } }
+            None => { if let Some((p, c, det)) = state.into_iter().next() { dd = d(p, c, det, i); } }
+          }
         }
-        if *unread_k { return (d("C10", "waits-while-notified-events-unread", format!("poll called at {}us while keyboard events already signalled are unread", at_us), i), st); }
-        if *unread_t { return (d("C12", "waits-while-tablet-events-unread", format!("poll called at {}us while tablet events already signalled are unread", at_us), i), st); }
+        if let Some(x) = dd { return (Some(x), st); }
         last_poll_timed_out = *ret == PollRet::TimedOut;
         if let (Some((keys, due, interval)), false) = (timer.clone(), tablet) {
           // (1) waits for at most the time left (1 ms once overdue)
